@@ -161,7 +161,7 @@ def run(chk, prop):
         chk.require(len(kinds) >= 14, "only %d error kinds exercised: %s" % (len(kinds), kinds))
         chk.require(chk.counts.get("errors_below_root", 0) >= 500, "too few nested errors")
     slim = [{k: e[k] for k in ("id", "s", "v", "exc", "nerrs", "eq", "rep", "errs", "facts", "vof",
-                               "vof_lines", "fmt_lines")} for e in events]
+                               "vof_lines", "fmt_lines", "srep", "serrs", "slocated", "sexc")} for e in events]
     for e in slim:
         if not isinstance(e["eq"], bool):
             e["eq"] = not (e["nerrs"] == 0)     # `==` raised: forces the eq clause to fail
